@@ -407,7 +407,9 @@ theorem countPass_cons (keep : List Nat) (s hi : Nat) (r : List Nat) (T : Nat) :
       rw [readAt_cons_succ]; exact readAt_cons_zero _ _
     rw [h0, h1]
   rw [h0, mapE_congr _ (countBody keep (hi :: r)) _ (fun t _ => countBody_succ keep s (hi :: r) t)]
-  rfl
+  cases countThread keep s hi with
+  | error e => rfl
+  | ok y => cases mapE (countBody keep (hi :: r)) (List.range T) <;> rfl
 
 theorem count_ok (keep : List Nat) (b' : List Nat) (s : Nat)
     (hle : ∀ x ∈ s :: b', x ≤ keep.length) :
@@ -443,7 +445,9 @@ theorem fillPass_cons (keep : List Nat) (N : Cur) (s hi : Nat) (r : List Nat) (g
     have h2 : readAt (g :: gs) ((0 : Nat) : Int) = .ok g := readAt_cons_zero _ _
     rw [h0, h1, h2]
   rw [h0, mapE_congr _ (fillBody keep (hi :: r) gs N) _ (fun t _ => fillBody_succ keep N s (hi :: r) g gs t)]
-  rfl
+  cases fillThread keep N g s hi with
+  | error e => rfl
+  | ok y => cases mapE (fillBody keep (hi :: r) gs N) (List.range T) <;> rfl
 
 theorem prefixSums_ne_nil (acc : Cur) (cs : List Cur) : prefixSums acc cs ≠ [] := by
   cases cs <;> simp [prefixSums]
@@ -525,5 +529,281 @@ theorem fill_ok (keep : List Nat) (N : Cur) (b' : List Nat) (s : Nat) (acc : Cur
       rcases hf with rfl | hf
       · exact h4 w hw
       · exact g4 f hf w hw
+
+/-! ### order independence of writes to distinct cells -/
+
+/-- **applyWrites_perm.** If the cells of a write list are pairwise distinct, every permutation of the list
+(every order in which the threads' writes may reach memory) produces the same array. -/
+theorem applyWrites_perm {β} {ws ws' : List (Nat × β)} (hperm : ws.Perm ws')
+    (hnd : (ws.map (·.1)).Nodup) (a : List β) : applyWrites a ws = applyWrites a ws' := by
+  induction hperm generalizing a with
+  | nil => rfl
+  | cons x _ ih =>
+    rw [applyWrites_cons, applyWrites_cons]
+    exact ih (List.nodup_cons.mp (by simpa using hnd)).2 _
+  | swap x y l =>
+    simp only [applyWrites_cons]
+    have hne : x.1 ≠ y.1 := by
+      simp only [List.map_cons, List.nodup_cons, List.mem_cons, not_or] at hnd
+      exact fun h => hnd.1.1 h.symm
+    rw [List.set_comm _ _ (Ne.symm hne)]
+  | trans h1 _ ih1 ih2 =>
+    rw [ih1 hnd, ih2 ((h1.map _).nodup_iff.mp hnd)]
+
+/-! ### block sequences -/
+
+theorem pairwise_le_getLast (l : List Nat) (h : l ≠ []) (hp : l.Pairwise (· ≤ ·)) :
+    ∀ x ∈ l, x ≤ l.getLast h := by
+  induction l with
+  | nil => exact absurd rfl h
+  | cons a l ih =>
+    intro x hx
+    by_cases hl : l = []
+    · subst hl; simp at hx; simp [hx]
+    · rw [List.getLast_cons hl]
+      rcases List.mem_cons.mp hx with rfl | hx
+      · exact List.rel_of_pairwise_cons hp (List.getLast_mem hl)
+      · exact ih hl (List.pairwise_cons.mp hp).2 x hx
+
+theorem BlockSeq.decomp {b : List Nat} {T H : Nat} (hb : BlockSeq b T H) :
+    ∃ b', b = 0 :: b' ∧ b'.length = T ∧ lastB 0 b' = H ∧ (0 :: b').Pairwise (· ≤ ·) ∧
+      ∀ x ∈ 0 :: b', x ≤ H := by
+  obtain ⟨hlen, hhead, hlast, hp⟩ := hb
+  cases b with
+  | nil => simp at hlen
+  | cons x b' =>
+    simp only [List.head?_cons, Option.some.injEq] at hhead
+    subst hhead
+    have hl : lastB 0 b' = H := by
+      unfold lastB
+      rw [List.getLast?_eq_some_getLast (List.cons_ne_nil 0 b')] at hlast
+      exact Option.some.inj hlast
+    refine ⟨b', rfl, by simpa using hlen, hl, hp, ?_⟩
+    intro x hx
+    rw [← hl]
+    exact pairwise_le_getLast (0 :: b') (List.cons_ne_nil _ _) hp x hx
+
+theorem rowsOf_eq_sel (keep : List Nat) (c : Nat) : rowsOf keep c = sel keep c (pyRange 0 keep.length) := by
+  simp [rowsOf, sel, pyRange, List.range_eq_range']
+
+theorem prefixSums_length (acc : Cur) (cs : List Cur) : (prefixSums acc cs).length = cs.length + 1 := by
+  induction cs generalizing acc with
+  | nil => rfl
+  | cons x xs ih => simp [prefixSums, ih]
+
+theorem countsOf_length (keep : List Nat) (s : Nat) (b' : List Nat) : (countsOf keep s b').length = b'.length := by
+  induction b' generalizing s with
+  | nil => rfl
+  | cons hi r ih => simp [countsOf, ih]
+
+/-! ### fast_concatenate -/
+
+/-- a write list with its values wrapped in `some` (cells of a fresh `np.empty` are `none`) -/
+def optW {α} (ws : List (Nat × α)) : List (Nat × Option α) := ws.map (fun w => (w.1, some w.2))
+
+theorem optW_append {α} (a b : List (Nat × α)) : optW (a ++ b) = optW a ++ optW b := by simp [optW]
+
+theorem optW_flatten_cons {α} (w : List (Nat × α)) (ws : List (List (Nat × α))) :
+    optW (w :: ws).flatten = optW w ++ optW ws.flatten := by simp [optW]
+
+theorem readAt_toNat {α} (a : List α) (z : Int) (h0 : 0 ≤ z) (h1 : z.toNat < a.length) :
+    readAt a z = .ok a[z.toNat] := by
+  obtain ⟨n, rfl⟩ := Int.eq_ofNat_of_zero_le h0
+  simp only [Int.toNat_natCast] at h1 ⊢
+  exact readAt_ok a n h1
+
+theorem copyLoop_ok {α} (a : List α) (len : Nat) (shift : Int) (off : Nat) (l : List Nat)
+    (h : ∀ i ∈ l, 0 ≤ (i : Int) + shift ∧ ((i : Int) + shift).toNat < a.length ∧ i + off < len) :
+    ∃ ws, copyLoop a len shift off l = .ok ws ∧
+      optW ws = l.map (fun (i : Nat) => (i + off, a[((i : Int) + shift).toNat]?)) := by
+  induction l with
+  | nil => exact ⟨[], rfl, rfl⟩
+  | cons i l ih =>
+    obtain ⟨ws, h1, h2⟩ := ih (fun j hj => h j (by simp [hj]))
+    obtain ⟨a0, a1, a2⟩ := h i (by simp)
+    refine ⟨(i + off, a[((i : Int) + shift).toNat]) :: ws, ?_, ?_⟩
+    · unfold copyLoop at h1 ⊢
+      simp only [mapE, readAt_toNat a _ a0 a1, idx_ok a2, h1]
+    · simp only [optW, List.map_cons] at h2 ⊢
+      rw [h2, List.getElem?_eq_getElem a1]
+
+theorem blockCopy_succ {α} (a : List α) (len : Nat) (shift : Int) (s : Nat) (h : List Nat) (t : Nat) :
+    blockCopy a len shift (s :: h) ((t + 1 : Nat) : Int) = blockCopy a len shift h (t : Int) := by
+  unfold blockCopy
+  rw [natCast_succ_int, readAt_cons_succ, readAt_cons_succ2]
+
+/-- all threads of one half: the blocks of `s :: h'` tile `[s, last)` and every cell is copied once, in order -/
+theorem blockCopy_all {α} (a : List α) (len : Nat) (shift : Int) (h' : List Nat) (s : Nat)
+    (hp : (s :: h').Pairwise (· ≤ ·))
+    (hr : ∀ i, s ≤ i → i < lastB s h' →
+      0 ≤ (i : Int) + shift ∧ ((i : Int) + shift).toNat < a.length ∧ i < len) :
+    ∃ wss, mapE (fun (t : Nat) => blockCopy a len shift (s :: h') (t : Int)) (List.range h'.length) = .ok wss ∧
+      wss.length = h'.length ∧
+      optW wss.flatten = (pyRange s (lastB s h')).map (fun (i : Nat) => (i, a[((i : Int) + shift).toNat]?)) := by
+  induction h' generalizing s with
+  | nil => exact ⟨[], rfl, rfl, by simp [lastB_nil, pyRange_self, optW]⟩
+  | cons hi r ih =>
+    have hp' : (hi :: r).Pairwise (· ≤ ·) := (List.pairwise_cons.mp hp).2
+    have hshi : s ≤ hi := List.rel_of_pairwise_cons hp (by simp)
+    have hhl : hi ≤ lastB hi r := le_lastB hi r hp'
+    rw [lastB_cons] at hr ⊢
+    obtain ⟨ws, w1, w2⟩ := copyLoop_ok a len shift 0 (pyRange s hi) (fun i hi' => by
+      have := pyRange_mem hi'
+      have := hr i (by omega) (by omega)
+      simpa using this)
+    obtain ⟨wss, g1, g2, g3⟩ := ih hi hp' (fun i h1 h2 => hr i (by omega) h2)
+    refine ⟨ws :: wss, ?_, by simp [g2], ?_⟩
+    · rw [List.length_cons, mapE_range_succ]
+      have h0 : blockCopy a len shift (s :: hi :: r) ((0 : Nat) : Int) = .ok ws := by
+        unfold blockCopy
+        have e0 : readAt (s :: hi :: r) ((0 : Nat) : Int) = .ok s := readAt_cons_zero _ _
+        have e1 : readAt (s :: hi :: r) (((0 : Nat) : Int) + 1) = .ok hi := by
+          rw [readAt_cons_succ]; exact readAt_cons_zero _ _
+        rw [e0, e1]; exact w1
+      rw [h0, mapE_congr _ (fun (t : Nat) => blockCopy a len shift (hi :: r) (t : Int)) _
+        (fun t _ => blockCopy_succ a len shift s (hi :: r) t), g1]
+    · rw [optW_flatten_cons, w2, g3, pyRange_split s hi (lastB hi r) hshi hhl, List.map_append]
+      simp
+
+/-- writing `g k` to every cell `k < n` of an array of length `n`, in increasing order, yields `map g (range n)` -/
+theorem applyWrites_range {β} (g : Nat → β) (n : Nat) (a : List β) (ha : a.length = n) :
+    applyWrites a ((List.range n).map (fun k => (k, g k))) = (List.range n).map g := by
+  apply List.ext_getElem
+  · simp [applyWrites_length, ha]
+  · intro i h1 h2
+    simp only [List.length_map, List.length_range] at h2
+    simp only [List.getElem_map, List.getElem_range]
+    have key : ∀ m, m ≤ n → ∀ (hh : i < (applyWrites a ((List.range m).map (fun k => (k, g k)))).length),
+        i < m → (applyWrites a ((List.range m).map (fun k => (k, g k))))[i] = g i := by
+      intro m
+      induction m with
+      | zero => intro _ _ hi; omega
+      | succ m ih =>
+        intro hm hh hi
+        have e : applyWrites a ((List.range (m+1)).map (fun k => (k, g k))) =
+            (applyWrites a ((List.range m).map (fun k => (k, g k)))).set m (g m) := by
+          rw [List.range_succ, List.map_append, applyWrites_append]
+          simp [applyWrites]
+        simp only [e]
+        by_cases him : i = m
+        · subst him; simp
+        · rw [List.getElem_set_ne (by omega)]
+          exact ih (by omega) _ (by omega)
+    exact key n (Nat.le_refl n) _ h2
+
+theorem range_getElem?_eq_map_some {α} (l : List α) :
+    (List.range l.length).map (fun i => l[i]?) = l.map some := by
+  apply List.ext_getElem
+  · simp
+  · intro i h1 h2
+    simp at h1
+    simp [List.getElem?_eq_getElem h1]
+
+theorem threadSplit_bounds (N1 N2 T : Nat) (h1 : 0 < N1) (h2 : 0 < N2) (hT : 2 ≤ T) :
+    1 ≤ (threadSplit N1 N2 T).1 ∧ (threadSplit N1 N2 T).1 ≤ T - 1 ∧
+      (threadSplit N1 N2 T).2 = ((T - (threadSplit N1 N2 T).1 : Nat) : Int) ∧
+      1 ≤ T - (threadSplit N1 N2 T).1 := by
+  have hlt : T * N1 / (N1 + N2) < T := by
+    apply Nat.div_lt_of_lt_mul
+    rw [Nat.mul_comm (N1 + N2) T]
+    apply Nat.mul_lt_mul_of_pos_left <;> omega
+  unfold threadSplit
+  simp only
+  have : max 1 (T * N1 / (N1 + N2)) ≤ T - 1 := by
+    apply Nat.max_le.mpr; constructor <;> omega
+  have h1' : 1 ≤ max 1 (T * N1 / (N1 + N2)) := Nat.le_max_left _ _
+  refine ⟨h1', this, by omega, by omega⟩
+
+/-! ### searchsorted -/
+
+theorem bsearch_ok (a : List Int) (v : Int) (fuel lo hi : Nat) (hh : hi ≤ a.length) :
+    ∃ r, bsearch a v fuel lo hi = .ok r ∧ (lo ≤ hi → lo ≤ r ∧ r ≤ hi) ∧ (hi < lo → r = lo) := by
+  induction fuel generalizing lo hi with
+  | zero => exact ⟨lo, rfl, fun h => ⟨Nat.le_refl _, h⟩, fun _ => rfl⟩
+  | succ fuel ih =>
+    unfold bsearch
+    by_cases hlt : lo < hi
+    · simp only [hlt, if_true]
+      have hm : (lo + hi) / 2 < a.length := by omega
+      rw [readAt_ok a _ hm]
+      simp only
+      by_cases hx : a[(lo + hi) / 2] < v
+      · simp only [hx, if_true]
+        obtain ⟨r, h1, h2, _⟩ := ih ((lo + hi) / 2 + 1) hi hh
+        refine ⟨r, h1, fun _ => ?_, fun h => by omega⟩
+        have := h2 (by omega)
+        omega
+      · simp only [hx, if_false]
+        obtain ⟨r, h1, h2, _⟩ := ih lo ((lo + hi) / 2) (by omega)
+        refine ⟨r, h1, fun _ => ?_, fun h => by omega⟩
+        have := h2 (by omega)
+        omega
+    · simp only [hlt, if_false]
+      exact ⟨lo, rfl, fun h => ⟨Nat.le_refl _, h⟩, fun _ => rfl⟩
+
+theorem searchsorted_ok (a : List Int) (v : Int) : ∃ r, searchsorted a v = .ok r ∧ r ≤ a.length := by
+  obtain ⟨r, h1, h2, _⟩ := bsearch_ok a v (a.length + 1) 0 a.length (Nat.le_refl _)
+  exact ⟨r, h1, (h2 (Nat.zero_le _)).2⟩
+
+/-- the value of the (never faulting) search, as a pure function — only used inside proofs -/
+def ssVal (a : List Int) (v : Int) : Nat :=
+  match searchsorted a v with
+  | .ok r => r
+  | .error _ => 0
+
+theorem searchsorted_eq (a : List Int) (v : Int) : searchsorted a v = .ok (ssVal a v) := by
+  obtain ⟨r, h, _⟩ := searchsorted_ok a v
+  simp [ssVal, h]
+
+theorem ssVal_le (a : List Int) (v : Int) : ssVal a v ≤ a.length := by
+  obtain ⟨r, h, hr⟩ := searchsorted_ok a v
+  simp [ssVal, h, hr]
+
+theorem searchsortedPar_ok (a b : List Int) :
+    searchsortedPar a b = .ok ((List.range b.length).zip (b.map (ssVal a))) := by
+  unfold searchsortedPar
+  rw [mapE_ok _ (fun i => (i, ssVal a (b.getD i 0)))]
+  · congr 1
+    apply List.ext_getElem
+    · simp
+    · intro i h1 h2
+      simp at h1
+      simp [List.getD_eq_getElem?_getD, List.getElem?_eq_getElem h1]
+  · intro i hi
+    have hi' : i < b.length := List.mem_range.mp hi
+    rw [readAt_ok b i hi']
+    simp only [searchsorted_eq, idx_ok hi']
+    simp [List.getD_eq_getElem?_getD, List.getElem?_eq_getElem hi']
+
+/-! ### the concrete boundaries -/
+
+theorem rintLinspace_blockSeq (H T : Nat) (hT : 1 ≤ T) : BlockSeq (rintLinspace H T) T H := by
+  have hTq : ((T : Nat) : ℚ) ≠ 0 := by
+    have : (0 : ℚ) < ((T : Nat) : ℚ) := by exact_mod_cast hT
+    exact ne_of_gt this
+  refine ⟨by simp [rintLinspace], ?_, ?_, ?_⟩
+  · unfold rintLinspace
+    rw [List.range_succ_eq_map]
+    simp only [List.map_cons, List.head?_cons, Option.some.injEq]
+    have : ((0 * H : Nat) : ℚ) / ((T : Nat) : ℚ) = ((0 : ℤ) : ℚ) := by simp
+    rw [this, rhe_int]
+    rfl
+  · unfold rintLinspace
+    rw [List.getLast?_map, List.getLast?_range]
+    simp only [Nat.add_eq_zero_iff, Nat.succ_ne_zero, and_false, if_false, Nat.add_sub_cancel, Option.map_some,
+      Option.some.injEq]
+    have : ((T * H : Nat) : ℚ) / ((T : Nat) : ℚ) = (((H : Nat) : ℤ) : ℚ) := by
+      push_cast
+      field_simp
+    rw [this, rhe_int]
+    simp
+  · unfold rintLinspace
+    rw [List.pairwise_map]
+    apply List.Pairwise.imp _ List.pairwise_lt_range
+    intro i j hij
+    apply Int.toNat_le_toNat
+    apply rhe_mono
+    apply div_le_div_of_nonneg_right _ (by positivity)
+    exact_mod_cast Nat.mul_le_mul_right H (Nat.le_of_lt hij)
 
 end AbacusVerif.TwoPass
